@@ -35,7 +35,7 @@ def run(tier, seed):
     samples = []
 
     def bad(key, **kw):
-        if len(violations) < 30:
+        if len(violations) < 400:
             violations.append({"case_key": key, **kw})
 
     tag = grammar.uniq("K")
@@ -158,5 +158,13 @@ def run(tier, seed):
         "rule": "10 scalar kinds x extremes by value; pointer-to-scalar from 8 numpy layouts (value, address, store) and xobject arrays; "
                 "struct/array/unionref arguments: pointer == base address at call time + offset for every object of a buffer before and after growth; "
                 "refused calls; serial and OpenMP contexts; distinct by (context, kind, type, case)",
-        "exhaustive": False, "violations": violations[:6], "samples": samples,
+        "exhaustive": False, "violations": _by_key(violations), "samples": samples,
     }
+
+
+def _by_key(violations, cap=12):
+    """one representative per case key (known findings must not crowd out new violations)"""
+    seen = {}
+    for v in violations:
+        seen.setdefault(v.get("case_key"), v)
+    return list(seen.values())[:cap]
